@@ -3,3 +3,4 @@
 pub mod binbuild;
 pub mod refattr;
 pub mod refbin;
+pub mod refxml;
